@@ -20,6 +20,7 @@ import ClarabelProofs.Lemmas.SolverNSFullCompose
 import ClarabelProofs.Lemmas.SolverNSBridgeStep
 import ClarabelProofs.Lemmas.SolverNSBridgeInit
 import ClarabelProofs.Lemmas.SolverNSFullExample
+import ClarabelProofs.Lemmas.SolverNSFullPresolvedCert
 
 namespace Clarabel.C03
 open Clarabel Clarabel.InfoUser Clarabel.Dense
@@ -237,5 +238,64 @@ example : ∃ S r, FullExample.newSolverT #[1, 1, 1, 1] (FullExample.stT tols Fu
 end
 
 end nsExamples
+
+
+/-! ### presolve DROPS rows (model with nonsymmetric cones) -/
+
+/-- **[R] `C03.ns_full_report_on_user_data_presolved`** — `ns_full_report_on_user_data` when PRESOLVE
+DROPS ROWS.  Presolve enabled, `keep` the keep vector of `make_reduction_map` on the collapsed cone list,
+at least one row dropped; `new` succeeds (zero / nonnegative / second-order / exponential / power /
+generalised power cones, admissible parameters) and `solve()` returns a non-infeasibility status.  Then,
+for the full-length `x, s, z` the user receives (`reverse_presolve`) and the user's FULL `P`
+(`P.to_triu()`), `q`, `A`, `b` (capped): `obj_val = ½xᵀPx + qᵀx`, `obj_val_dual = −bᵀz − ½xᵀPx` (dropped
+rows have `z = 0`), `r_dual = ‖Px+Aᵀz+q‖₂ / max(1, ‖q‖∞+‖x‖₂+‖z‖₂)` verbatim, and
+`r_prim = ‖Ax+s−b‖ / max(1, normb+‖x‖₂+‖s‖)` with the residual norm and `‖s‖` taken over the KEPT rows
+(`nrmKept`) and `normb = ‖b[keep]‖∞` (capped) — the dropped rows carry `(s, z) = (infbound, 0)`.
+Composition of `C09.ns_presolve_transparent_full`, `ns_full_report_on_user_data` on the hand-reduced
+problem, and the arithmetic of `C03.report_on_user_data_presolved`. -/
+theorem ns_full_report_on_user_data_presolved {P : Csc ℝ} {q : Array ℝ} {A : Csc ℝ} {b : Array ℝ}
+    {cones : List (ConeT ℝ)} {st : SolverNS.Settings ℝ} {perm : Array Nat} {S : SolverNS.Solver ℝ}
+    {r : SolverNS.SolveResult ℝ} {keep : List Bool}
+    (hin : Solver.InputOK P q A b cones) (hvc : Equil.ValidCones cones)
+    (hpe : st.presolveEnable = true)
+    (hk : Presolve.keepFlags (Presolve.threshold st.infbound) (Cones.newCollapsed cones) b.toList = .ok keep)
+    (hc : keep.count true < b.size)
+    (hlo : 0 < st.equil.minScaling) (hhi : 0 < st.equil.maxScaling)
+    (hf0 : 0 < st.maxStepFraction) (hf1 : st.maxStepFraction < 1) (hmv : 0 < st.maxValue)
+    (hb0 : 0 ≤ st.linesearchBacktrackStep) (hb1 : st.linesearchBacktrackStep ≤ 1)
+    (hnew : SolverNS.Solver.new P q A b cones st perm = .ok S) (hr : S.solve st = .ok r)
+    (hst : r.S.solution.status.isInfeasible = false) :
+    ∃ Pn, ProblemData.triuStep P = .ok Pn ∧
+      let n := A.n
+      let m := A.m
+      let bc := ProblemData.capB b st.infbound
+      let Pd := symFn Pn n
+      let qd := vecFn q n
+      let x := vecFn r.S.solution.x n
+      let s := vecFn r.S.solution.s m
+      let z := vecFn r.S.solution.z m
+      let kp := InfoPresolve.keepFn keep m
+      let normb := Vec.normInf (ProblemData.capB (Vec.select b keep.toArray) st.infbound)
+      let pobj := dot x (mulV Pd x) / 2 + dot qd x
+      let dobj := -dot (vecFn bc m) z - dot x (mulV Pd x) / 2
+      r.S.solution.obj_val = some pobj
+      ∧ r.S.solution.obj_val_dual = some dobj
+      ∧ r.S.solution.r_prim = some (InfoPresolve.nrmKept kp (fun i => mulV (matFn A m n) x i + s i - vecFn bc m i)
+            / max 1 (normb + nrm x + InfoPresolve.nrmKept kp s))
+      ∧ r.S.solution.r_dual = some (nrm (fun j => mulV Pd x j + mulVT (matFn A m n) z j + qd j)
+            / max 1 (Vec.normInf q + nrm x + nrm z))
+      ∧ (∀ i, kp i = false → s i = st.infbound ∧ z i = 0) :=
+  SolverNS.full_report_presolved_chainN hin hvc hpe hk hc hlo hhi hf0 hf1 hmv hb0 hb1 hnew hr hst
+
+/-- non-vacuity of the presolve hypotheses (over `ℝ`, the instance of the first model's `…_presolved`
+theorems: cones `[nonneg 2]`, `b = (1, 2·10²⁰)`, bound `10²⁰` — `make_reduction_map` drops row 1; the
+cone parameters are admissible); the run hypotheses on an instance with an EXPONENTIAL cone and a dropped
+row: `C09.ns_presolve_transparent_full`'s example (`new` evaluated by the kernel) -/
+example : Presolve.keepFlags (Presolve.threshold (1e20 : ℝ)) (Cones.newCollapsed [ConeT.nonneg 2])
+      (#[1, 2e20] : Array ℝ).toList = .ok [true, false]
+    ∧ [true, false].count true < (#[1, 2e20] : Array ℝ).size ∧ (0 : ℝ) ≤ 1e20
+    ∧ Equil.ValidCones [ConeT.nonneg (α := ℝ) 2] :=
+  ⟨Solver.keepFlags_example, by decide, by norm_num, fun c hc => by
+    rcases List.mem_singleton.mp hc with rfl; trivial⟩
 
 end Clarabel.C03
